@@ -257,11 +257,26 @@ theorem C08_cyclic_compare_counterexample :
   exact ⟨_, rfl⟩
 
 /-- the repaired `diffEnv`: equal encodings are up to date — no structural comparison is made, so depth and cycles
-do not matter — and no outcome of the comparison is a build error any more. -/
+do not matter -/
 theorem C08_equal_encodings_up_to_date (old new : EnvRec) (h : old.data = new.data) :
     diffEnvFixed (some old) new = .upToDate := by
   simp [diffEnvFixed, h]
 
+/-- … and ONLY equal encodings are: for a target that has a record, the repaired `diffEnv` answers "up to date"
+exactly when the stored and the fresh encoding are the same bytes. With `C08_bytes_deterministic` (an unchanged
+environment has the same bytes in every load) and `C08_bytes_sensitive` (the same bytes only for isomorphic
+environments) this is: up to date ⇔ the environment did not change. (The use of the fingerprint; property C01.) -/
+theorem C08_up_to_date_iff_equal_encodings (old new : EnvRec) :
+    diffEnvFixed (some old) new = .upToDate ↔ old.data = new.data := by
+  constructor
+  · intro h
+    simp only [diffEnvFixed] at h
+    split at h
+    · assumption
+    · split at h <;> cases h
+  · exact C08_equal_encodings_up_to_date old new
+
+/-- no outcome of the comparison is a build error any more -/
 theorem C08_no_compare_error (old : Option EnvRec) (new : EnvRec) : ∀ msg, diffEnvFixed old new ≠ .buildError msg := by
   intro msg
   simp only [diffEnvFixed]
@@ -270,6 +285,22 @@ theorem C08_no_compare_error (old : Option EnvRec) (new : EnvRec) : ∀ msg, dif
   · split
     · simp
     · split <;> simp
+
+/-- the decoded environments of `X = 1` and of `X = 1.0`: `{"global values": {"V": 1}}` / `{… 1.0}` in one heap -/
+def gOneFloat : Heap :=
+  [.dict [(.atom (.str sGlobalValues), .ref 1)], .dict [(.atom (.str sV), .atom (.int 1))],
+   .dict [(.atom (.str sGlobalValues), .ref 3)], .dict [(.atom (.str sV), .atom (.float 0x3ff0000000000000))]]
+
+/-- D25 (regression witness): `1` and `1.0` are written differently (BININT1 / BINFLOAT), so the fingerprints differ,
+but `EqualDepth` calls the decoded environments equal and the `diffEnv` of the D16 repair answered "up to date": a
+target that prints `X` was not re-run after `X = 1` was edited to `X = 1.0`. -/
+theorem C08_equal_but_distinct_counterexample :
+    serAll (encAtom (.int 1)) ≠ serAll (encAtom (.float 0x3ff0000000000000)) ∧
+    diffEnvD16 (some ⟨serAll (encAtom (.int 1)), gOneFloat, .ref 0⟩) ⟨serAll (encAtom (.float 0x3ff0000000000000)), gOneFloat, .ref 2⟩
+      = .upToDate ∧
+    diffEnvFixed (some ⟨serAll (encAtom (.int 1)), gOneFloat, .ref 0⟩) ⟨serAll (encAtom (.float 0x3ff0000000000000)), gOneFloat, .ref 2⟩
+      = .rerun "environment changed" := by
+  refine ⟨by decide +kernel, by decide +kernel, by decide +kernel⟩
 
 example : diffEnvFixed (some ⟨[1], gCyc, .ref 0⟩) ⟨[1], gCyc, .ref 0⟩ = .upToDate := by decide +kernel
 example : diffEnvFixed (some ⟨[0], gCyc, .ref 0⟩) ⟨[1], gCyc, .ref 0⟩ = .rerun "environment changed" := by
